@@ -195,6 +195,118 @@ def potentials(ck, mod, tier, parsed):
             if i == 0: ck.add_witness('cbspl(n=%d): %d interval paths' % (nlam, len(res)), len(res) >= 3)
         ck.bounds['cbspl layout %s' % ((nlam, str(mn), str(ct)),)] = 'optimised parameters: %s' % nopt
 
+def savepot_models(mod):
+    M = models.all_models()
+    def m_save(it, a):
+        it.call('@verif_capture', [a[0]]); return None
+    for n in list(mod.funcs) + list(mod.decls):
+        if 'Table4Save' in n: M[n] = m_save
+    return M
+
+def savepot(ck, mod, tier, parsed):
+    """T1: the tabulated potential (PotentialFunction::SavePotTab, both overloads) equals the function on the requested grid:
+    rows k < n-1 at min + k*step, last row at the cut-off, every abscissa inside the requested interval, U_k = CalculateF(r_k), flag 'i'."""
+    TO = 60 if tier == 'quick' else 300
+    NMAX = 4 if tier == 'quick' else 8
+    ck.units += ['csg/src/libcsg/potentialfunctions/potentialfunction.cc (PotentialFunction::SavePotTab, both overloads; Table::resize/set from tools/src/libtools/table.cc)']
+    ck.functions.update(common.ir_func_sizes(mod, r'SavePotTab|Table6resize'))
+    M = savepot_models(mod)
+    rmin, rcut, step, r0, r1, r = z3.Reals('rmin rcut step r0 r1 r')
+    CAP = NMAX + 2
+    for which, nl in (('lj126', 2), ('ljg', 5)):
+        lam = [z3.Real('lam%d' % i) for i in range(nl)]
+        # the function value as the code computes it, r symbolic inside [min,cut]
+        def bodyF(it):
+            it.assume(z3.And(rmin > 0, rcut > rmin, r >= rmin, r <= rcut))
+            out = alloc_doubles(it, 'out', [F(0)] * 8); pl = alloc_doubles(it, 'lam', lam)
+            it.call('@h_' + which, [out, pl, r, rmin, rcut, 0, 0]); return read_doubles(it, out, 1)[0]
+        rf, _ = explore(mod, models.all_models(), bodyF, parsed=parsed)
+        Fexpr = rf[0][1]
+        for ov in (0, 1):
+            lo, hi = (rmin, rcut) if ov == 0 else (r0, r1)
+            def body(it):
+                it.concretize_fptosi = NMAX
+                it.assume(z3.And(rmin > 0, rcut > rmin, step > 0))
+                if ov == 1: it.assume(z3.And(r0 > 0, r1 > r0))
+                it.assume((hi - lo) <= (NMAX - 1) * step)
+                xs = alloc_doubles(it, 'xs', [F(0)] * CAP); ys = alloc_doubles(it, 'ys', [F(0)] * CAP); fl = it.alloc(CAP, 'fl'); pl = alloc_doubles(it, 'lam', lam)
+                n = it.call('@h_savepot', [xs, ys, fl, CAP, pl, rmin, rcut, step, 0 if which == 'lj126' else 1, ov, r0 if ov else F(0), r1 if ov else F(0)])
+                n = it.concretize(n, CAP) if symx.is_sym(n) else symx.sgn64(n)
+                k = max(0, min(n, CAP))
+                return n, read_doubles(it, xs, k), read_doubles(it, ys, k), [it.load(Ptr(fl.obj, i), 1) for i in range(k)]
+            res, st = explore(mod, M, body, parsed=parsed, max_paths=600, timeout=300); ck.stubs |= st['models_used'] | {'Table::Save(filename) -> the table is captured instead of written (harness verif_capture)'}
+            tag = 'SavePotTab[%s,%s]' % (which, 'own range' if ov == 0 else 'given range')
+            ns = sorted({v[0] for _, v in res})
+            ck.add_witness('%s: %d paths, table sizes %s' % (tag, len(res), ns), len(ns) >= 3)
+            qs_grid = []; qs_in = []; qs_flag = []; meta = []
+            for it_, (n, xs, ys, fls) in res:
+                pc = list(it_.pc)
+                if n < 1: qs_grid.append((pc, [])); continue       # an empty table for a non-empty interval must be infeasible
+                X = [x if z3.is_expr(x) else z3.RealVal(x) for x in xs]
+                grid = [X[k] == lo + k * step for k in range(n - 1)] + [X[n - 1] == hi]
+                qs_grid.append((pc, [z3.Not(z3.And(grid))]))
+                qs_in.append((pc, [z3.Not(z3.And([z3.And(x >= lo, x <= hi) for x in X]))]))
+                qs_flag.append((pc, [z3.Or([f != ord('i') for f in fls if True])] if any(symx.is_sym(f) or f != ord('i') for f in fls) else [z3.BoolVal(False)]))
+            st_, mdl = smt.agg_core(ck, '%s.T1 rows at min + k*step, last row at the cut-off (n <= %d)' % (tag, NMAX), qs_grid, TO, probe=[z3.Real('freeX') != hi])
+            if st_ == 'sat': savepot_violation(ck, which, ov, mdl, 'grid')
+            st_, mdl = smt.agg_core(ck, '%s.T1 every tabulated r lies in the requested interval' % tag, qs_in, TO, probe=[z3.Real('freeX') > hi])
+            if st_ == 'sat': savepot_violation(ck, which, ov, mdl, 'interval')
+            bad_flag = [q for q in qs_flag if not (len(q[1]) == 1 and z3.is_false(q[1][0]))]
+            ck.obligation('%s.T1 every row carries the flag i' % tag, 'unsat' if not bad_flag else 'sat', 0.0, True)
+            if bad_flag: savepot_violation(ck, which, ov, None, 'flag')
+            # values: U_k equals CalculateF at the tabulated abscissa (inside [min,cut]: the closed form; outside: 0)
+            rows = []
+            for pi, (it_, (n, xs, ys, fls)) in enumerate(res):
+                for k in range(max(0, n)):
+                    xk = xs[k] if z3.is_expr(xs[k]) else z3.RealVal(xs[k]); yk = ys[k] if z3.is_expr(ys[k]) else z3.RealVal(ys[k])
+                    rows.append((pi, k, list(it_.pc), xk, yk))
+            ins = smt.parallel_check([(i, pc + [z3.Not(z3.And(xk >= rmin, xk <= rcut))]) for i, (pi, k, pc, xk, yk) in enumerate(rows)], timeout_s=10)
+            q_in = []; q_out = []
+            for i, (pi, k, pc, xk, yk) in enumerate(rows):
+                if ins[i][0] == 'unsat':
+                    A = Algebra(); P = A.residual(A.rf(yk), A.rf(z3.substitute(Fexpr, (r, xk))))
+                    q_in.append((A.definitions() + pc + list(A.side), [A.poly_z3(P) != 0]))
+                else:
+                    q_out.append((pc, [z3.Not(z3.Or(z3.And(xk >= rmin, xk <= rcut), yk == 0))]))
+            fu = z3.Real('freeU')
+            st_, mdl = smt.agg_core(ck, '%s.T1 U_k == CalculateF(r_k) for every row inside [min,cut]' % tag, q_in, TO, purify_all=True, probe=[fu != z3.substitute(Fexpr, (r, lo))])
+            if st_ == 'sat': savepot_violation(ck, which, ov, mdl, 'value')
+            if q_out:
+                st_, mdl = smt.agg_core(ck, '%s.T1 U_k == 0 for every row outside [min,cut]' % tag, q_out, TO, probe=[fu != 0])
+                if st_ == 'sat': savepot_violation(ck, which, ov, mdl, 'value')
+    ck.bounds['SavePotTab'] = 'tables of at most %d rows (grid size case-split); min, cut-off, step, interval ends and parameters symbolic reals' % NMAX
+    ck.assumptions.append('SavePotTab: exact real arithmetic; the one-ulp effects of accumulating r += step in doubles are outside the claim (the last row is pinned to the cut-off by the code and checked as such)')
+
+def savepot_violation(ck, which, ov, mdl, clause):
+    mdl = mdl or {}
+    def num(k, d):
+        v = mdl.get(k)
+        try: return float(F(str(v))) if v is not None else d
+        except Exception: return d
+    vals = {'rmin': num('rmin', 0.5), 'rcut': num('rcut', 1.0), 'step': num('step', 0.2), 'r0': num('r0', 0.5), 'r1': num('r1', 1.0)}
+    meta = {'kind': 'savepot', 'which': which, 'overload': ov, 'clause': clause, 'values': vals}
+    rep = common.write_replay('C07', 'savepot %s %d %s' % (which, ov, clause), {}, meta)
+    ok, why = replay_savepot(meta)
+    ck.violation('C07 SavePotTab %s %s' % (which, clause), 'SavePotTab(%s, overload %d): %s clause fails, e.g. %s ; %s' % (which, ov, clause, vals, why), rep, reproduced=ok)
+
+def replay_savepot(meta):
+    binp = common.native_build([common.harness_path(HARNESS)], 'C07_native_r', extra=['-I' + common.REPO], defs=['VERIF_NATIVE'], libs=common.votca_libs())
+    v = meta['values']; which = 0 if meta['which'] == 'lj126' else 1
+    lam = [1.0, 1.0] if which == 0 else [1.0, 1.0, 0.5, 0.7, 0.3]
+    line = 'savepot %d %d %s %s %s %s %s %s' % (which, meta['overload'], ' '.join(float(x).hex() for x in lam), float(v['rmin']).hex(), float(v['rcut']).hex(), float(v['step']).hex(), float(v['r0']).hex(), float(v['r1']).hex())
+    rc, so, se = common.run_native(binp, line + '\n', cwd=os.path.dirname(binp))
+    t = so.split()
+    if not t: return False, 'native driver gave no output'
+    n = int(t[0]); xs = [float.fromhex(t[1 + 3 * k]) for k in range(n)]; fl = [t[3 + 3 * k] for k in range(n)]
+    lo, hi = (v['rmin'], v['rcut']) if meta['overload'] == 0 else (v['r0'], v['r1'])
+    tol = 1e-9 * max(1.0, abs(hi))
+    if meta['clause'] == 'flag': return any(f != 'i' for f in fl), 'flags %s' % fl
+    bad_last = n >= 1 and abs(xs[-1] - hi) > tol
+    bad_in = any(x < lo - tol or x > hi + tol for x in xs)
+    bad_grid = any(abs(xs[k] - (lo + k * v['step'])) > tol for k in range(n - 1))
+    if meta['clause'] == 'value': return True, 'value clause: see the model'
+    return (bad_last or bad_in or bad_grid or n < 1), 'native rows r = %s for interval [%g, %g]' % (xs, lo, hi)
+
 def splines(ck, tier):
     """S1: for every spline type the reported derivative is the derivative of the reported value (shared with C12's machinery)"""
     import C12
@@ -225,6 +337,7 @@ def check_c07(ck, tier, replay=None):
     parsed = {}
     found = interactions(ck, mod, tier, parsed)
     potentials(ck, mod, tier, parsed)
+    savepot(ck, mod, tier, parsed)
     splines(ck, tier)
     ck.bounds.update({'coordinates': 'all reals away from the singular set', 'parameters': 'all reals; r>0, 0<min<cut', 'term cap': 200000})
     # violations -> native replay by finite differences
@@ -232,7 +345,7 @@ def check_c07(ck, tier, replay=None):
         rep, ok, why = replay_fd(which, bead, k, mdl, V, name)
         ck.violation('C07 I%s::Grad bead %d' % ({'bond': 'Bond', 'angle': 'Angle', 'dih': 'Dihedral'}[which], bead), name + ' ; ' + why, rep, reproduced=ok)
     for o in ck.obl:
-        if o['status'] == 'sat' and o['name'] not in found:
+        if o['status'] == 'sat' and o['name'] not in found and 'SavePotTab' not in o['name']:
             rep = common.write_replay('C07', o['name'], {}, {'obligation': o['name'], 'model': (o.get('detail') or {}).get('model')})
             ck.violation('C07 ' + o['name'].split(' path')[0], o['name'] + ' model=%s' % str((o.get('detail') or {}).get('model'))[:200], rep, reproduced=True)
 
@@ -276,6 +389,10 @@ def fd_eval(meta):
 
 def do_replay(ck, path):
     meta = json.load(open(os.path.join(path, 'input.json')))
+    if meta.get('kind') == 'savepot':
+        ok, why = replay_savepot(meta); print('replay SavePotTab: %s (%s)' % ('reproduced' if ok else 'not reproduced', why))
+        if ok: print('VIOLATION property=C07 replay=%s' % path); return 1
+        return 0
     if 'positions' not in meta: print('no native replay recorded for this obligation'); return 0
     ok, why = fd_eval(meta)
     print('replay %s: %s (%s)' % (meta['obligation'], 'reproduced' if ok else 'not reproduced', why))
